@@ -43,6 +43,20 @@ def run(ctx):
     ctx.cov["deletes_checked"] = ndel
     log(f"[T] {len(runs)} storage traces, {ndel} deletes checked against Needed, {n} runs accepted")
 
+    # R: explicit GC while a worker / merge thread is parked right after its k-th file creation
+    gp = ctx.path("gcrace.ndjson")
+    vlib.run_bin("core_driver", ["gcrace", "--seed", ctx.seed, "--runs", 12 if ctx.quick else 60, "--out", gp], timeout=900)
+    gev = vlib.read_ndjson(gp)
+    realised = sum(1 for e in gev if e.get("ev") == "schedule" and e.get("realised"))
+    gruns = sc.storage_runs(gev)
+    n3 = tracecheck.validate_runs(ctx, gruns, "gcrace", "StorageTrace", "StorageTrace.cfg", key=sc.storage_key, timeout=300)
+    n4 = c02.validate_runs(ctx, [e for e in gev if e.get("ev") != "schedule"], "gcrace_api")
+    ctx.cov["traces_validated_against_impl"] += n3
+    ctx.cov["gated_gc_races"] = {"runs": len(gruns), "realised": realised, "accepted_storage": n3, "accepted_api": n4}
+    log(f"[R] GC forced while a worker / merge thread is parked after file creation #k: {realised}/{len(gruns)} realised, {n3} + {n4} accepted")
+    if realised == 0:
+        raise vlib.ToolError("the gated GC race was never realised")
+
     evc = sc.record_histories(ctx, "crash_fixed", sc.fixed_histories()[:2], crash_images=3 if ctx.quick else 8, stride=6 if ctx.quick else 1)
     if not ctx.quick:
         evc += sc.record_random(ctx, "crash_rand", 40, 18, ctx.seed + 17, crash_images=4, stride=2)
